@@ -22,19 +22,21 @@ import (
 
 // Scenario is one simulated run of the cache.
 type Scenario struct {
-	Keys     []string          `json:"keys"`               // 1-2 keys
-	Preset   map[string]string `json:"preset,omitempty"`   // initial cache content (SetMap before the clients start)
-	Clients  [][]string        `json:"clients"`            // per client: the keys it looks up, in order
-	Fetch    map[string][]bool `json:"fetch"`              // per key: outcome of the n-th fetch invocation (true = success); beyond the list: success
-	Vec      []int             `json:"vec"`                // schedule vector
-	Observer int               `json:"observer,omitempty"` // >0: an extra actor takes GetMap() at a scheduled instant and re-reads the returned map after this many further releases
+	Keys   []string          `json:"keys"`             // 1-2 keys
+	Preset map[string]string `json:"preset,omitempty"` // initial cache content (SetMap before the clients start)
+	// PresetNil: SetMap(nil) before the clients start - what loading a cache file without entries does
+	PresetNil bool              `json:"preset_nil,omitempty"`
+	Clients   [][]string        `json:"clients"`            // per client: the keys it looks up, in order
+	Fetch     map[string][]bool `json:"fetch"`              // per key: outcome of the n-th fetch invocation (true = success); beyond the list: success
+	Vec       []int             `json:"vec"`                // schedule vector
+	Observer  int               `json:"observer,omitempty"` // >0: an extra actor takes GetMap() at a scheduled instant and re-reads the returned map after this many further releases
 }
 
 type C16b struct{}
 
 func (C16b) ID() string { return "C16" }
 func (C16b) Rule() string {
-	return "(b) request cache: 2-4 simulated clients issuing 1-3 sequential Get calls over 1-2 keys; fetch functions are harness callbacks that park (slow fetch) and succeed with a value unique per invocation or fail, per a scenario-defined outcome list; the real cache.go is instrumented at build time with yields before every Lock(), after every Unlock() and around wg.Wait(); a seeded schedule vector decides which parked actor runs next; history (<= 12 operations) checked with porcupine against a sequential cache model + fetch-count invariant; non-trivial = at least two clients were parked simultaneously inside Get on the same key; distinct = distinct scenario JSON"
+	return "(b) request cache: 2-4 simulated clients issuing 1-3 sequential Get calls over 1-2 keys; fetch functions are harness callbacks that park (slow fetch) and succeed with a value unique per invocation or fail, per a scenario-defined outcome list; 1 in 6 scenarios start from SetMap(preset), 1 in 7 from SetMap(nil) (a cache file without entries); the real cache.go is instrumented at build time with yields before every Lock(), after every Unlock() and around wg.Wait(); a seeded schedule vector decides which parked actor runs next; history (<= 12 operations) checked with porcupine against a sequential cache model + fetch-count invariant; non-trivial = at least two clients were parked simultaneously inside Get on the same key; distinct = distinct scenario JSON"
 }
 
 func (C16b) Gen(rt *rapid.T, tier string) any {
@@ -45,6 +47,8 @@ func (C16b) Gen(rt *rapid.T, tier string) any {
 	}
 	if rapid.IntRange(0, 5).Draw(rt, "preset") == 0 {
 		sc.Preset = map[string]string{sc.Keys[0]: "preset-" + sc.Keys[0]}
+	} else if rapid.IntRange(0, 5).Draw(rt, "preset-nil") == 0 {
+		sc.PresetNil = true
 	}
 	nc := rapid.IntRange(2, 4).Draw(rt, "nclients")
 	total := 0
@@ -113,6 +117,8 @@ func (C16b) Run(t *testing.T, scn any) *sim.Outcome {
 			cache := datasource.NewRequestCache[string, string]()
 			if sc.Preset != nil {
 				cache.SetMap(sc.Preset)
+			} else if sc.PresetNil {
+				cache.SetMap(nil)
 			}
 			sched = sim.NewSched(sc.Vec)
 			verifshim.Yield = func(site string) { sched.Park(site) }
